@@ -235,3 +235,31 @@ func calleeFull(c *ssa.CallCommon) string {
 	}
 	return ""
 }
+
+// ruleConsoleMarshal: nested values (arrays, objects, other JSON values) are re-encoded by the
+// console writer with the library's own InterfaceMarshalFunc — the marshaler the event was written
+// with (HTML escaping off) — not with encoding/json.Marshal, which escapes <, > and & and so
+// renders a nested string differently from the event.
+func ruleConsoleMarshal(r *Run, p *Prog) {
+	wf := p.Method("", "ConsoleWriter", "writeFields")
+	imf := p.Global("", "InterfaceMarshalFunc")
+	if !r.Anchor(wf != nil && imf != nil, "ONCE", "ConsoleWriter.writeFields / InterfaceMarshalFunc") {
+		return
+	}
+	v := p.View(wf, "", nil)
+	viaHook, direct := 0, ""
+	eachInstr(v, func(b *ssa.BasicBlock, i int, in ssa.Instruction) {
+		c, ok := in.(*ssa.Call)
+		if !ok {
+			return
+		}
+		if loadedGlobal(c.Call.Value) == imf {
+			viaHook++
+		}
+		if o := calleeObj(&c.Call); o != nil && o.Pkg() != nil && o.Pkg().Path() == "encoding/json" && (o.Name() == "Marshal" || o.Name() == "MarshalIndent") {
+			direct = o.Name()
+		}
+	})
+	okc := viaHook > 0 && direct == ""
+	r.Ob("ONCE", FnName(wf)+"/nested-values-by-InterfaceMarshalFunc", p.Pos(wf.Pos()), okc, true, tern(okc, "nested values are re-encoded with InterfaceMarshalFunc", "nested values are re-encoded with encoding/json."+direct+" instead of InterfaceMarshalFunc: <, > and & inside nested strings come out as \\u003c, \\u003e, \\u0026, not as the event has them"))
+}
